@@ -1234,7 +1234,7 @@ func TestVerif_C09(t *testing.T) {
 				return nil
 			})
 		}
-		run.ParallelFor(len(todo), func(i int) {
+		done := run.ParallelFor(len(todo), func(i int) {
 			p := todo[i]
 			var st c09VerifyStats
 			tv := time.Now()
@@ -1261,6 +1261,9 @@ func TestVerif_C09(t *testing.T) {
 			}
 			os.RemoveAll(p.Dir)
 		})
+		if int(done) != len(todo) {
+			exhaustive = false
+		}
 		statsMu.Lock()
 		stats.queries += res.LiveQueries
 		statsMu.Unlock()
